@@ -35,8 +35,14 @@ Inductive content :=
 | CMarker (payload : option string)               (* Some p: JSON payload with "file_path" = p; None: no usable payload *)
 | CGarbage                                        (* bytes that parse as nothing (fastavro: ValueError, no Avro header) *)
 | CTruncAvro                                      (* an Avro container cut inside a block (fastavro: EOFError, not caught) *)
-| CJsonEmpty.                                     (* a JSON object without "manifests" / "files": the legacy JSON fallback
+| CJsonEmpty                                      (* a JSON object without "manifests" / "files": the legacy JSON fallback
                                                      reads it as an EMPTY list / manifest (damage that still parses) *)
+| CPartialAvro (decoded : list string) (caught : bool).
+                                                  (* an Avro container (or a stream) that yields the paths `decoded` of its first
+                                                     records and THEN fails: a damaged later record / block / sync marker, or a
+                                                     read error mid-stream.  caught = the exception is of the class the readers
+                                                     catch (ValueError incl. UnicodeDecodeError, IndexError, StopIteration, OSError).
+                                                     The records already decoded must never be used. *)
 
 Record obj := mkObj { mtime : Z (* ms *); body : content }.
 Definition store := list (key * obj).
@@ -143,6 +149,7 @@ Definition avro_parse (w : want) (c : content) : avro_view :=
   | WList, CManifest FAvro _ => AvWrong
   | WManifest, CList FAvro _ => AvWrong
   | _, CTruncAvro => AvWrong
+  | _, CPartialAvro _ caught => if caught then AvNot else AvWrong
   | _, _ => AvNot
   end.
 
